@@ -14,8 +14,8 @@ T = {
  "C05": "wire_trip m = Some m for every specific well-formed message (both encodings) and injectivity, composed from the codec theorem; correspondence over every kind x addresses x 13 states x 6 operations and SendData of every length 0..=255.",
  "C06": "set/get/non-interference/frame conditions and refinement of an abstract bitmap for every operation list and every page size; out-of-bounds <-> panic; correspondence on byte images of pages over an exhaustive (thorough) or sampled (quick) box of sizes plus the 11 sign sizes, fresh and borrowed pages, with an independent bitmap monitor.",
  "C07": "layout of Page::new, size arithmetic (multiple of 16, < 2^62), pixel location and bit injectivity, from_bytes <-> length; correspondence over the size box, ids, every pixel location and candidate lengths total±17.",
- "C08": "Closed loop controller x virtual signs proved from EVERY state satisfying the sign invariant VInv0 (a superset of the reachable ones), any bus population with distinct addresses, all 11 types, both styles, page lists of every length (under the controller's 16-bit chunk counter guard): configure, configure_if_needed, send_pages (pages arrive bit-exact, in order), show/load-next, repeat. Correspondence from every implementation state found by a BFS of the real VirtualSign's state graph, with a property-level monitor.",
- "C09": "Shape of every transfer attempt for all items and all reply scripts (prefixes of attempt_msgs, <= 3 attempts, offsets 0,16,.., count, config block), under the 16-bit guards; correspondence on recorded bus traces of the real controller incl. retries, large items and deviations, with an independent shape monitor.",
+ "C08": "Closed loop controller x virtual signs proved from EVERY state satisfying the sign invariant VInv0 (a superset of the reachable ones), any bus population with distinct addresses, all 11 types, both styles, page lists of every length (under the controller's 16-bit chunk counter guard): configure, configure_if_needed, send_pages (pages arrive bit-exact, in order), show/load-next, repeat; and the whole user-level path: pages made with Sign::create_page and drawn on with ANY sequence of pixel operations arrive in order, bit for bit, and show exactly the drawn picture (C08_api_pages_end_to_end, joining the page theorems of C06/C07 to the closed loop). Correspondence from every implementation state found by a BFS of the real VirtualSign's state graph, with a property-level monitor; page lists with repeated ids; create_page for all 11 types.",
+ "C09": "Shape of every transfer attempt for all items and all reply scripts (prefixes of attempt_msgs, <= 3 attempts, offsets 0,16,.., count, config block), under the 16-bit guards; correspondence on recorded bus traces of the real controller incl. retries, items at the 64 KiB offset limit, page literals of the wrong length, every wrong acknowledgement of the receive request and deviations, with an independent shape monitor.",
  "C10": "Code-shaped controller model proved equal (messages and outcome) to an explicit documented-protocol automaton (ProtoSpec) for EVERY reply script; correspondence by exhaustive reply-alphabet DFS on the real controller to the natural end of each operation (polling loops bounded).",
  "C11": "Four invariants (confirmed success, fail-stop, bounded retries after own failure report only, own address only / foreign-blind) proved for every script; checked as monitors on every DFS conversation of the real controller.",
  "C12": "vstep never returns the panic outcome from any state satisfying VInv0; VInv0 holds initially and is preserved by EVERY message (no well-formedness needed), lifted to histories and buses. Correspondence: BFS of the real VirtualSign's state graph to a fixed point under bounds + random walks (+ a 65540-chunk walk in thorough), catch_unwind on every step.",
@@ -23,10 +23,10 @@ T = {
  "C14": "For distinct addresses and every history: only the addressed sign changes and it behaves as it would alone, absent addresses get no reply, replies carry the addressed sign's address, unaddressed data only affects receiving signs, each sign's final state equals its solo run (projection). Correspondence: random interleaved walks on 1..4 real signs with a snapshot monitor.",
  "C15": "Frame::read consumes exactly the first line for every content, fragmentation and interrupt placement (model of std's one-byte BufReader loop), back-to-back frames, error cases; write_all delivers exactly the encoding or a strict prefix with an I/O error. Correspondence through instrumented Read/Write that honour schedules for any request size (exhaustive short schedules, fault at every call index).",
  "C16": "serial_process: exactly one frame written, a line read iff Hello/QueryState/RequestOperation, reply = decoding of that line, every failure is an error (never Ok(None) or an invented reply). Correspondence over all kinds x reply tapes x injected port failures on the real SerialSignBus.",
- "C17": "Generic simulation: any controller program run over the modelled wire (serial bus, pipes, ODK bridge, virtual bus) equals the strict direct run (same outcome, same signs, empty inbox); success-together and same-signs-on-failure for the six operations; bridge error/forwarding lemmas. Correspondence: real Sign->SerialSignBus->duplex pipe->Odk->VirtualSignBus graph against the direct graph and the model.",
- "C18": "PARTIAL: proved placement of Sleep 30 / Sleep 100 in the event trace of serial_process and the induced lower bounds in a timed-trace semantics; that thread::sleep is called with those durations and honours them is MEASURED (monotonic clock at the port's read/write boundaries, min over trials for unpaced exchanges), not proved.",
+ "C17": "Generic simulation: any controller program run over the modelled wire (serial bus, pipes, ODK bridge, virtual bus) equals the strict direct run (same outcome, same signs, empty inbox); success-together and same-signs-on-failure for the six operations; bridge error/forwarding lemmas; and the same over byte streams that fragment every read and write arbitrarily and report Interrupted arbitrarily often (C17_simulation_fragmented: C15 composed with C17). Correspondence: real Sign->SerialSignBus->duplex pipe->Odk->VirtualSignBus graph against the direct graph and the model, on a plain and on a fragmenting/interrupting pipe; raw blank, malformed, maximum-length and back-to-back lines injected at the bridge.",
+ "C18": "PARTIAL: proved placement of Sleep 30 / Sleep 100 in the event trace of serial_process and the induced lower bounds in a timed-trace semantics; that thread::sleep is called with those durations and honours them is MEASURED, not proved: monotonic clock at the port's read/write boundaries, from the end of a frame's write to the start of the NEXT frame's write and from the end of the reply's read to the return, on an instantaneous port and on one whose transfers take real time; minimum over trials for unpaced exchanges.",
  "C19": "finite case analysis over the 11 types (length, round trip, fields vs dimensions, what the virtual sign derives) and totality/accept-iff for all byte lists; correspondence exhaustive over all 65536 (family,id) pairs and lengths 0..=40.",
- "C20": "configure_port / both constructors: Ok => 19200 8N1 no flow control + the timeout (5 s bus, 10 s bridge), a refusal at any of the four device calls => that error and no object; for all prior settings. Correspondence exhaustive over the settings product x failure points x constructors on the real code (serial-core's reconfigure is modelled from its source).",
+ "C20": "configure_port / both constructors: Ok => 19200 8N1 no flow control + the timeout (5 s bus, 10 s bridge), a refusal at any of the four device calls => that error and no object; for all prior settings. Correspondence exhaustive over the settings product x failure points x constructors on the real code, 7 error kinds per failure point (the returned error must be the injected one), 16 timeouts from 0 ns to Duration::MAX applied exactly (serial-core's reconfigure is modelled from its source).",
 }
 claimed = [p["id"] for p in props if os.path.exists(os.path.join(ROOT, "coq", "theories", "props", p["id"] + ".v")) and p["id"] in T
            and p["id"] not in os.environ.get("UNCLAIM", "").split(",")]
